@@ -292,6 +292,7 @@ package circuitbreaker
 // delay function unless it returns -1 (or there is no execution), then the specific listener and the generic one,
 // each once, with an event describing previous kind -> new kind and carrying the previous state's metrics.
 //@ func (*circuitBreaker).transitionTo
+//@   requires [C14.user_callback_gets_copy] userCopy(exec)
 //@   requires held(mutexof(cb, "mtx"))
 //@   requires stateWF(cb) && (newState == ClosedState || newState == OpenState || newState == HalfOpenState)
 //@   premise listener == nil || cb.stateChangedListener == nil || listener != cb.stateChangedListener
@@ -315,6 +316,7 @@ package circuitbreaker
 
 // closed: opens exactly when the execution threshold is met and the rate (or count) threshold is met
 //@ func (*closedState).checkThresholdAndReleasePermit
+//@   requires [C14.user_callback_gets_copy] userCopy(exec)
 //@   requires s != nil && held(mutexof(s.breaker, "mtx")) && s.breaker != nil && stateWF(s.breaker) && typeis(s.breaker.state, *closedState) && asref(s.breaker.state, *closedState) == s && s.stats != nil
 //@   premise s.breaker.openListener == nil || s.breaker.stateChangedListener == nil || s.breaker.openListener != s.breaker.stateChangedListener
 //@   ext n := ret(s.stats.executionCount, 1)
@@ -344,6 +346,7 @@ package circuitbreaker
 //@ macro hoSuccessSide(c, sc, fc, n, sr, fr) = ite(c.successThreshold != 0, sc >= c.successThreshold, ite(c.failureRateThreshold != 0, n >= c.failureExecutionThreshold && sr > 100 - c.failureRateThreshold, sc > c.failureThresholdingCapacity - c.failureThreshold))
 //@ macro hoFailureSide(c, sc, fc, n, sr, fr) = ite(c.successThreshold != 0, fc > c.successThresholdingCapacity - c.successThreshold, ite(c.failureRateThreshold != 0, n >= c.failureExecutionThreshold && fr >= c.failureRateThreshold, fc >= c.failureThreshold))
 //@ func (*halfOpenState).checkThresholdAndReleasePermit
+//@   requires [C14.user_callback_gets_copy] userCopy(exec)
 //@   requires s != nil && s.breaker != nil && held(mutexof(s.breaker, "mtx")) && stateWF(s.breaker) && typeis(s.breaker.state, *halfOpenState) && asref(s.breaker.state, *halfOpenState) == s && s.stats != nil
 //@   requires s.permittedExecutions <= 1073741824
 //@   premise (s.breaker.openListener == nil || s.breaker.stateChangedListener == nil || s.breaker.openListener != s.breaker.stateChangedListener) && (s.breaker.closeListener == nil || s.breaker.stateChangedListener == nil || s.breaker.closeListener != s.breaker.stateChangedListener) && (s.breaker.openListener == nil || s.breaker.closeListener == nil || s.breaker.openListener != s.breaker.closeListener)
@@ -435,6 +438,7 @@ package circuitbreaker
 //@   modifies cb.state, alloftype(halfOpenState), alloftype(countingStats), alloftype(timedStats), alloftype(stat), alloftype(bitset.BitSet), calls(cb.openListener), calls(cb.closeListener), calls(cb.stateChangedListener), calls(cb.DelayFunc), methodcalls
 
 //@ func (*circuitBreaker).recordFailure
+//@   requires [C14.user_callback_gets_copy] userCopy(exec)
 //@   requires cb != nil && held(mutexof(cb, "mtx")) && stateWF(cb)
 //@   requires typeis(cb.state, *halfOpenState) ==> asref(cb.state, *halfOpenState).permittedExecutions <= 1073741824
 //@   premise breakerListenersDistinct(cb)
